@@ -195,6 +195,8 @@ type Property struct {
 	Floors map[string]int64
 	// NeedsRace: the batch must run in the -race binary.
 	NeedsRace bool
+	// RaceInThorough: the thorough tier additionally runs (up to 8) batches in the -race binary.
+	RaceInThorough bool
 	// DeathIsViolation: an unexpected child death counts as a violation of this property.
 	DeathIsViolation bool
 	// Exhaustive reports whether the run enumerated its (finite) space completely.
@@ -314,6 +316,7 @@ type batchOutcome struct {
 	batch   int
 	raceN   int
 	raceTxt string
+	raceRun bool
 }
 
 // RunCheck is the parent: fans out batches, aggregates, writes evidence, prints verdict lines.
@@ -354,16 +357,47 @@ func RunCheck(prop, tier string, seed int64, self, selfRace string, onlyBatch in
 			defer wg.Done()
 			sem <- struct{}{}
 			defer func() { <-sem }()
-			outcomes[b] = runChild(bin, p, prop, tier, seed, b, batches, timeout)
+			outcomes[b] = runChild(bin, p.NeedsRace, p, prop, tier, seed, b, batches, timeout)
 		}(b)
 	}
 	wg.Wait()
+	// thorough tier of a property that asks for it: the same batches once more under the race
+	// detector (the worker scales its workload down when it runs in the race build)
+	raceAlso := p.RaceInThorough && tier == "thorough" && !p.NeedsRace && onlyBatch < 0
+	if raceAlso {
+		rb := batches
+		if rb > 8 {
+			rb = 8
+		}
+		extra := make([]batchOutcome, rb)
+		sem2 := make(chan struct{}, 4)
+		for b := 0; b < rb; b++ {
+			wg.Add(1)
+			go func(b int) {
+				defer wg.Done()
+				sem2 <- struct{}{}
+				defer func() { <-sem2 }()
+				extra[b] = runChild(selfRace, true, p, prop, tier, seed+1000003, b, rb, timeout)
+				extra[b].raceRun = true
+			}(b)
+		}
+		wg.Wait()
+		outcomes = append(outcomes, extra...)
+	}
 
 	agg := workerResult{Cov: map[string]int64{}}
 	distinct := map[uint64]struct{}{}
 	inconclusive := []string{}
 	var viol []Violation
+	if p.NeedsRace || raceAlso {
+		agg.Cov["race-detector/batches-run-under-race-detector"] = 0
+		agg.Cov["race-detector/report-blocks"] = 0
+	}
 	for _, o := range outcomes {
+		if (p.NeedsRace || o.raceRun) && o.res != nil {
+			agg.Cov["race-detector/batches-run-under-race-detector"]++
+			agg.Cov["race-detector/report-blocks"] += int64(o.raceN)
+		}
 		if o.timeout {
 			inconclusive = append(inconclusive, fmt.Sprintf("batch %d: watchdog (%ds) fired", o.batch, timeout))
 			continue
@@ -525,7 +559,7 @@ func raceSig(txt string) string {
 	return "unknown"
 }
 
-func runChild(bin string, p *Property, prop, tier string, seed int64, batch, batches, timeoutS int) batchOutcome {
+func runChild(bin string, race bool, p *Property, prop, tier string, seed int64, batch, batches, timeoutS int) batchOutcome {
 	o := batchOutcome{batch: batch}
 	args := []string{"--worker", prop, "--tier", tier, "--seed", fmt.Sprint(seed), "--batch", fmt.Sprint(batch), "--batches", fmt.Sprint(batches)}
 	cmd := exec.Command(bin, args...)
@@ -541,7 +575,7 @@ func runChild(bin string, p *Property, prop, tier string, seed int64, batch, bat
 	cmd.Stdout = outF
 	cmd.Stderr = errF
 	cmd.Env = append(os.Environ(), "GOTRACEBACK=all")
-	if p.NeedsRace {
+	if race {
 		cmd.Env = append(cmd.Env, "GORACE=halt_on_error=0 log_path="+filepath.Join(tmp, "race.log"))
 	}
 	if err := cmd.Start(); err != nil {
@@ -568,7 +602,7 @@ func runChild(bin string, p *Property, prop, tier string, seed int64, batch, bat
 	ob, _ := os.ReadFile(filepath.Join(tmp, "out"))
 	eb, _ := os.ReadFile(filepath.Join(tmp, "err"))
 	o.stderr = string(eb)
-	if p.NeedsRace {
+	if race {
 		matches, _ := filepath.Glob(filepath.Join(tmp, "race.log*"))
 		for _, m := range matches {
 			rb, _ := os.ReadFile(m)
